@@ -181,6 +181,7 @@ Record ccase := {
   c_X : list (list float);                         (* recorded Lyapunov output *)
   c_shifts : list Z;                               (* shifts of transition_variables ++ measurement_variables *)
   c_order : nat;
+  c_scale : float;                                 (* largest shock variance (1 when all are 0): scale of the comparisons *)
   c_acov : list (list (list float));               (* get_acov(up_to_order=c_order), this variant; NaN = masked *)
   c_acorr : list (list (list float));              (* get_acorr(up_to_order=c_order), this variant *)
 }.
@@ -211,11 +212,11 @@ Definition case_contract (ctol : dy) (c : ccase) : bool :=
   let rhs := madd LOps (m:=ns) (n:=ns)
                (mmul LOps (m:=ns) (n:=ns) (p:=ns) (mmul LOps (m:=ns) (n:=ns) (p:=ns) T X) (mtr LOps (m:=ns) (n:=ns) T))
                (lyap_rhs sol (lmx_of [c_stdu c])) in
-  lmx_close ctol X rhs && lmx_close ctol X (mtr LOps (m:=ns) (n:=ns) X).
+  lmx_close_s ctol (dyf0 (c_scale c)) X rhs && lmx_close_s ctol (dyf0 (c_scale c)) X (mtr LOps (m:=ns) (n:=ns) X).
 
 (* 0 = agrees; 1 = recorded solver output violates its contract; 2 = get_acov differs; 3 = get_acorr differs *)
 Definition run_case (ctol tol : dy) (c : ccase) : nat :=
   if negb (case_contract ctol c) then 1
-  else if negb (lomx_list_close tol (case_acov c) (map lomx_of (c_acov c))) then 2
+  else if negb (lomx_list_close_s tol (dyf0 (c_scale c)) (case_acov c) (map lomx_of (c_acov c))) then 2
   else if negb (lomx_list_close tol (case_acorr c) (map lomx_of (c_acorr c))) then 3
   else 0.
